@@ -104,7 +104,7 @@ PROPS['C10'] = {
 PROPS['C13'] = {
     'level': 'exploration',
     'technique': 'schedule enumeration on the real library with a residue invariant (recognisable secrets, private poisoned stack, post-ret register dump, manager scan) at every quiescent point',
-    'level_text': 'For every algorithm row (both directions), 12 chained suites and every key-preparation helper on all 7 variants: schedules of n = 1..17 jobs of unequal lengths followed by flush (covering submit-completes and flush-completes paths and every partial lane occupancy); after every call that leaves the manager empty, the register dump taken immediately after ret, the 256 KiB private stack and the whole manager block are searched for any 8-byte window of the recognisable key objects / plaintext.',
+    'level_text': 'For every algorithm row (both directions), 12 chained suites and every key-preparation helper on all 7 variants: schedules of n = 1..17 jobs of unequal lengths followed by flush (covering submit-completes and flush-completes paths and every partial lane occupancy); after every call that leaves the manager empty, the register dump taken immediately after ret, the 256 KiB private stack and the whole manager block are searched for any 8-byte window of the recognisable key objects / plaintext. The same invariant is evaluated after every call of the direct API (GCM / GMAC / GHASH one-shot and init-update-finalize, ChaCha20-Poly1305 direct, ZUC / SNOW3G / KASUMI 1..N-buffer and bit variants, single-block CFB, the QUIC helpers; encrypt and decrypt side, 11 lengths, 16 unequal buffers).',
     'level_note': 'Detects exact copies of caller-visible secrets (raw keys, every word of every expanded/derived key object the caller passes, plaintext). Internally derived state that is not a byte-copy (e.g. an LFSR loaded from key bytes) is outside this oracle; ciphertext, tags and digests are deliberately not secrets.',
     'drivers': [{'name': 'c13', 'src': ['props/c13.c'] + ALG, 'cfgs': ['std'], 'args': ''}],
     'deadline': {'quick': 900, 'thorough': 3000},
